@@ -116,6 +116,10 @@ def units(tier, seed):
         for ctx in ("host", "archive", None):
             for shared in (False, True):
                 us.append({"part": "pool", "family": f, "t": "datasource", "ctx": ctx, "size": 2, "shared": shared})
+    for k, nodes in enumerate(evaluator_cases()):
+        if tier == "quick" and len(nodes) > 4:
+            continue            # three sub-graphs cost ~2 000 schedules per case: thorough only
+        us.append({"part": "evaluator", "index": k, "size": 2})
     for k in range(4):
         us.append({"part": "seed", "chunk": k, "of": 4})
     return us
@@ -180,14 +184,14 @@ def invocations(g):
     return out
 
 
-def make_broker(g, case):
+def make_broker(g, case, observers=True):
     from insights.core.context import HostContext, HostArchiveContext
     extra = {}
     if case.get("ctx") == "host":
         extra[HostContext] = HostContext()
     elif case.get("ctx") == "archive":
         extra[HostArchiveContext] = HostArchiveContext()
-    return g.make_broker(extra=extra)
+    return g.make_broker(extra=extra, observers=observers)
 
 
 def reference(case):
@@ -302,7 +306,7 @@ _SKIP_FUNCS = {"get_name", "get_simple_name", "get_module_name", "get_base_modul
                "walk_dependencies", "walk_tree", "visit", "visitor", "run_order", "get_subgraphs", "stringify_requirements",
                "get_metadata", "get_tags", "get_links", "get_group", "get_components_of_type", "get_component",
                "_get_component", "_import_component", "get_dependency_specs", "add_dependent", "first_of", "<lambda>",
-               "<listcomp>", "<genexpr>", "<dictcomp>", "<setcomp>"}
+               "<listcomp>", "<genexpr>", "<dictcomp>", "<setcomp>", "get_simple_module_name"}
 
 
 def target_codes():
@@ -311,7 +315,7 @@ def target_codes():
     global _TARGETS
     if _TARGETS is None:
         import types
-        from insights.core import dr, plugins
+        from insights.core import dr, plugins, evaluators
         codes = set()
 
         def walk_code(co, fname):
@@ -322,7 +326,7 @@ def target_codes():
             for c in co.co_consts:
                 if isinstance(c, types.CodeType):
                     walk_code(c, fname)
-        for mod in (dr, plugins):
+        for mod in (dr, plugins, evaluators):
             fname = mod.__file__
             with open(fname) as fh:
                 top = compile(fh.read(), fname, "exec")
@@ -411,6 +415,116 @@ def check_pool(case, bound, res=None, max_executions=None):
             res.exhaustive = False
             res.notes.append("pool exploration capped at %d executions for %r" % (ex.executions, case["family"]))
     return vio, ex.executions, len(outcomes), ex
+
+
+# ---- dimension 3b: the evaluator's pooled driver (insights/core/evaluators.py) -------------------------------
+
+def canon_response(resp):
+    out = {}
+    for k, v in resp.items():
+        if k in ("analysis_metadata", "system"):
+            continue
+        if isinstance(v, list):
+            out[k] = sorted(json.dumps(x, sort_keys=True, default=repr) for x in v)
+        else:
+            out[k] = json.loads(json.dumps(v, sort_keys=True, default=repr))
+    return out
+
+
+def evaluator_reference(case):
+    import io
+    from insights.core.evaluators import SingleEvaluator
+    from harness import graphs as G
+    g = G.Graph({"nodes": case["nodes"]}, name_tag="g")
+    try:
+        ev = SingleEvaluator(make_broker(g, case, observers=False), stream=io.StringIO(), incremental=False)
+        resp = ev.process(g.explicit_graph())
+        return canon_response(resp), canon_broker(g, [ev.broker]), invocations(g)
+    finally:
+        g.cleanup()
+
+
+def run_evaluator_once(case, prefix):
+    import contextlib
+    import io
+    import insights
+    from insights.core.evaluators import SingleEvaluator
+    from harness import graphs as G
+    from mc import sched as S
+    g = G.Graph({"nodes": case["nodes"]}, name_tag="g")
+    saved = insights.get_pool
+    try:
+        s = S.Scheduler(prefix, target_codes(), pool_size=case["size"], max_points=50000)
+        g.hook = lambda ev: s.point(ev[:2])
+
+        @contextlib.contextmanager
+        def get_pool(parallel, prefix_, kwargs):
+            yield S.ControlledPool(s)
+        insights.get_pool = get_pool        # the seam evaluators.py documents for its pool
+        ev = SingleEvaluator(make_broker(g, case, observers=False), stream=io.StringIO(), incremental=True)
+        graph = g.explicit_graph()
+        err = None
+        try:
+            resp = s.run_main(lambda: ev.process(graph, parallel=True))
+        except S.SchedulerAbort:
+            raise
+        except Exception as ex:
+            resp = {}
+            err = "%s: %s" % (type(ex).__name__, ex)
+        got = [canon_response(resp), canon_broker(g, [ev.broker]), invocations(g)]
+        if err:
+            got.append(err)
+        return s, got
+    finally:
+        insights.get_pool = saved
+        g.hook = None
+        g.cleanup()
+
+
+def check_evaluator(case, bound, res=None, max_executions=None):
+    from mc import sched as S
+    ref = list(evaluator_reference(case))
+    vio = []
+    outcomes = set()
+
+    def on_exec(s, got):
+        outcomes.add(json.dumps(got, sort_keys=True))
+        if got != ref and len(vio) < 5:
+            vio.append(("evaluator:pooled-response-differs-from-serial", {"response": ref[0], "invocations": ref[2]},
+                        {"response": got[0], "invocations": got[2], "extra": got[3:]}, list(s.choices)))
+    if case.get("schedule") is not None:
+        s, got = run_evaluator_once(case, case["schedule"])
+        s2, got2 = run_evaluator_once(case, case["schedule"])
+        if s.choices != s2.choices or got != got2:
+            raise RuntimeError("schedule replay is not deterministic")
+        on_exec(s, got)
+        return vio, 1, 1, None
+    ex = S.explore(lambda p: run_evaluator_once(case, p), bound, max_executions=max_executions, on_execution=on_exec)
+    if res is not None:
+        res.traces += ex.executions
+        res.states += ex.points_total + ex.executions
+        res.transitions += ex.points_total
+        res.maxi("max_choice_points_in_one_execution", ex.max_points)
+        if ex.capped:
+            res.exhaustive = False
+            res.notes.append("evaluator exploration capped at %d executions" % ex.executions)
+    return vio, ex.executions, len(outcomes), ex
+
+
+def evaluator_cases():
+    """Rule sets in 2-3 independent sub-graphs: plain -> rule, rule with unmet dependency, failing rule."""
+    out = []
+    sub = lambda off, leaf_out="value", rule_out="value": [{"t": "plain", "decl": [], "out": leaf_out},
+                                                          {"t": "rule", "decl": [off], "out": rule_out}]
+    for k in (2, 3):
+        for devs in itertools.product([("value", "value"), ("skip", "value"), ("value", "error"), ("value", "none")], repeat=k):
+            if sum(1 for d in devs if d != ("value", "value")) > 1:
+                continue
+            nodes = []
+            for d in devs:
+                nodes.extend(sub(len(nodes), d[0], d[1]))
+            out.append(nodes)
+    return out
 
 
 # ---- dimension 4: real hash seeds -------------------------------------------------------------------------
@@ -559,6 +673,22 @@ def run_unit(unit, tier):
                               {"ctx": unit.get("ctx"), "t": unit["t"],
                                "signal_in_worker_thread": "signal only works in main thread" in json.dumps(v[2])})
         return res
+    if part == "evaluator":
+        nodes = evaluator_cases()[unit["index"]]
+        case = {"kind": "evaluator", "nodes": nodes, "size": unit["size"]}
+        try:
+            vio, nexec, nout, ex = check_evaluator(case, 1 if (tier == "quick" or len(nodes) > 4) else 2, res,
+                                                   max_executions=4000 if tier == "quick" else 120000)
+        except Exception:
+            import traceback
+            vio, nexec, nout = [("harness:raises", "no exception", traceback.format_exc()[-900:], None)], 0, 0
+        res.case(nontrivial=nexec >= 2, outcome="ev:%d" % nout, sample=case)
+        res.stat("evaluator_schedules_executed", nexec)
+        for v in vio:
+            c = dict(case)
+            c["schedule"] = v[3]
+            res.violation(v[0], c, v[1], v[2], {})
+        return res
     if part == "seed":
         cases = [c for k, c in enumerate(seed_cases(tier)) if k % unit["of"] == unit["chunk"]]
         seeds = list(range(b["seeds"]))
@@ -596,6 +726,9 @@ def replay(case):
         return [{"clause": v[0], "case": case, "expected": v[1], "observed": v[2],
                  "features": {"ctx": case.get("ctx"), "t": case["nodes"][0]["t"],
                               "signal_in_worker_thread": "signal only works in main thread" in json.dumps(v[2])}} for v in vio]
+    if kind == "evaluator":
+        vio, _, _, _ = check_evaluator(case, 0)
+        return [{"clause": v[0], "case": case, "expected": v[1], "observed": v[2], "features": {}} for v in vio]
     if kind == "seed":
         vio = check_seed_case(case, [case["schedule"][1]])
         return [{"clause": v[0], "case": case, "expected": v[1], "observed": v[2], "features": {}} for v in vio]
